@@ -13,7 +13,7 @@ import (
 )
 
 func fpmEvent(out *vuWriter, src, tgt string) {
-	ev := map[string]interface{}{"ev": "fpm", "src": src, "tgt": tgt, "panic": ""}
+	ev := map[string]interface{}{"ev": "fpm", "src": src, "tgt": tgt, "panic": "", "textok": true}
 	func() {
 		defer func() {
 			if p := recover(); p != nil {
@@ -23,6 +23,17 @@ func fpmEvent(out *vuWriter, src, tgt string) {
 		}()
 		s, t := New(src, DefaultGranularity), New(tgt, DefaultGranularity)
 		ev["srclen"], ev["tgtlen"], ev["tgtbytes"] = len(s.Tokens), len(t.Tokens), len(tgt)
+		// the search set's tokens index the string it was built from
+		for _, x := range []struct {
+			set *SearchSet
+			str string
+		}{{s, src}, {t, tgt}} {
+			for _, tk := range x.set.Tokens {
+				if tk.Offset < 0 || tk.Offset+len(tk.Text) > len(x.str) || x.str[tk.Offset:tk.Offset+len(tk.Text)] != tk.Text {
+					ev["textok"] = false
+				}
+			}
+		}
 		cands := [][][4]int{}
 		bytes := [][2]int{}
 		for _, mr := range FindPotentialMatches(s, t) {
@@ -96,6 +107,7 @@ func TestVerifFPMTrace(t *testing.T) {
 			}
 			tgt = append(tgt, mk(rng.Intn(20))...)
 		}
-		fpmEvent(out, strings.Join(src, " "), strings.Join(tgt, " "))
+		pre := []string{"", "", "\uFEFF", "\u200b", "\xef\xbb", " \uFEFF", "\u00a0"}[rng.Intn(7)] // byte order mark and friends in front
+		fpmEvent(out, pre+strings.Join(src, " "), pre+strings.Join(tgt, " "))
 	}
 }
